@@ -1,6 +1,6 @@
 From Coq Require Import List NArith ZArith Permutation Relations.
 From SK Require Import lib.LGraph lib.StrJoin model.C08_Model proof.C08_Spec proof.C08_Faithful proof.C08_Nauty proof.C08_SigFun proof.C08_Sound proof.C08_Invariant proof.C08_Value proof.C08_GraphSig proof.C08_Auts proof.C08_GenIdem proof.C08_Select proof.C08_Orbits.
-From SK Require Import model.C08_Digraph proof.C08_DSpec proof.C08_DSer proof.C08_DNauty proof.C08_DInvariant proof.C08_MaxDepth proof.C08_DValue.
+From SK Require Import model.C08_Digraph proof.C08_DSpec proof.C08_DSer proof.C08_DNauty proof.C08_DInvariant proof.C08_MaxDepth proof.C08_DValue proof.C08_DGraphSig proof.C08_OrbitsAut proof.C08_DAuts proof.C08_DOrbitsAut.
 Import ListNotations.
 
 (** 1. Faithfulness: the canonical graph is the input relabelled by a map that is injective on its nodes;
@@ -372,3 +372,51 @@ Theorem C08_digraph_value_objects_model_verdicts : forall g h : graph, dwf g -> 
   (cangraph_eqb canon_generic dser_generic g h = true -> diso_cov g h).
 Proof. exact dvo_model_verdicts. Qed.
 Print Assumptions C08_digraph_value_objects_model_verdicts.
+
+(** 16. NautyCanonicalizer.graph_signature on a DiGraph (model [dgraph_sig_label]: the two-triangle label of the canonical
+        digraph read in the order 1..N; compared with the implementation per presentation on every digraph case): it hashes
+        the minimal label of the search and is equal exactly for digraphs that are isomorphic as digraphs. *)
+Theorem C08_digraph_graph_signature_exact : forall (D : Type) (digest : str -> D) (g h : graph),
+  dwf g -> dwf h -> els_ok g -> els_ok h ->
+  (digest (dgraph_sig_label g) = digest (dgraph_sig_label h) -> dgraph_sig_label g = dgraph_sig_label h) ->
+  (digest (dgraph_sig_label g) = digest (dgraph_sig_label h) <-> diso_cov g h).
+Proof. exact dgraph_signature_spec. Qed.
+Print Assumptions C08_digraph_graph_signature_exact.
+
+Theorem C08_digraph_graph_signature_is_min_label : forall g : graph, dwf g ->
+  dgraph_sig_label g = dnlabel g (dnauty_perm g) /\ dnauty_label g = Some (dnlabel g (dnauty_perm g)).
+Proof. exact dgraph_sig_label_min_both. Qed.
+Print Assumptions C08_digraph_graph_signature_is_min_label.
+
+(** 17. compute_orbits returns the orbits of the automorphism group (closes the gap left by 12): two nodes lie in one class
+        of [nauty_orbits] exactly when an automorphism of the covered graph - a map injective on the nodes with
+        [geq_cov (relabel s g) g] - carries one to the other.  (12 gives the classes generated by the reported pairs, 9 makes
+        every reported pair an automorphism image and every automorphism a reported permutation; the automorphisms form a
+        group: identity, composition, inverse on the node set.) *)
+Theorem C08_nauty_orbits_are_automorphism_orbits : forall g : graph, wf g -> els_ok g ->
+  forall x y, In x (node_ids g) -> In y (node_ids g) ->
+  ((exists c, In c (nauty_orbits g) /\ In x c /\ In y c) <->
+   (exists s, (inj_on s (node_ids g) /\ geq_cov (relabel s g) g) /\ s x = y)).
+Proof. exact nauty_orbits_aut. Qed.
+Print Assumptions C08_nauty_orbits_are_automorphism_orbits.
+
+(** 18. Directed inputs: automorphism and orbit outputs of the exact back-end on a DiGraph (9, 12 and 17 for digraphs; the
+        reported permutations and the orbits are compared with the implementation on every digraph case). *)
+Theorem C08_digraph_nauty_automorphisms_sound : forall g : graph, dwf g -> els_ok g -> forall q, In q (snd (dnauty_acc g)) ->
+  Permutation q (node_ids g) /\ dnlabel g q = dnlabel g (dnauty_perm g) /\
+  dgeq_cov (relabel (apply_map (mapping_of (dnauty_perm g))) g) (relabel (apply_map (mapping_of q)) g).
+Proof. exact dnauty_auts_sound. Qed.
+Print Assumptions C08_digraph_nauty_automorphisms_sound.
+
+Theorem C08_digraph_nauty_automorphisms_complete : forall (g : graph) (sigma : N -> N), dwf g ->
+  (forall x y, sigma x = sigma y -> x = y) -> dgeq_cov (relabel sigma g) g ->
+  In (map sigma (dnauty_perm g)) (snd (dnauty_acc g)).
+Proof. exact dnauty_auts_complete. Qed.
+Print Assumptions C08_digraph_nauty_automorphisms_complete.
+
+Theorem C08_digraph_nauty_orbits_are_automorphism_orbits : forall g : graph, dwf g -> els_ok g ->
+  forall x y, In x (node_ids g) -> In y (node_ids g) ->
+  ((exists c, In c (dnauty_orbits g) /\ In x c /\ In y c) <->
+   (exists s, (inj_on s (node_ids g) /\ dgeq_cov (relabel s g) g) /\ s x = y)).
+Proof. exact dnauty_orbits_aut. Qed.
+Print Assumptions C08_digraph_nauty_orbits_are_automorphism_orbits.
